@@ -846,6 +846,12 @@ def extract_fn(unit: str, file: str, item: str, mode: str, contracts, canary: bo
             lp = loops[k]
             inv = _join(_render_block(ls.block, '            ', fn_label))
             inv_segs = _render_block(ls.block, '            ', fn_label)
+            # `${x}` in an invariant: the variable `x` as it resolves inside the loop body (R21 renames shadowing lets)
+            _lp_pos = toks[lp.open_tok].end
+            inv = resolve_names(inv, _lp_pos)
+            for sg_ in inv_segs:
+                if '${' in sg_.text:
+                    sg_.text = resolve_names(sg_.text, _lp_pos)
             info.clauses += [cl_ for cl_ in ls.block.clauses if cl_.group not in _xgroups()]
             open_t = toks[lp.open_tok]
             close_t = toks[lp.close_tok]
